@@ -689,6 +689,9 @@ fn exec_history(zs: &[ZoneCfg], keys: &[KeyCfg], payload: u16, p: &[u64], steps:
                 }
                 all_cands.push(cands);
                 rnds.push(rnd);
+                // a panic inside the RRL step poisons the bucket mutex: nothing more can be asked of
+                // this server (the history ends here, with the panic recorded as its last result)
+                if res.last().map(|r| r == "panic").unwrap_or(false) { break; }
             }
         }
     }
